@@ -125,8 +125,9 @@ def check_op(ctx, h, r):
                 ctx.count("reference-followed")
                 got_v = ep.value_as_tree(val.text.decode())
                 if got_v != want_v:
+                    sib = ref is not None and isinstance(tb, dict) and ref.text.decode() in tb
                     ctx.fail({"clause": "reference-holds-value", **base_key, "binder": c11.binder_kind(res) if ref is not None else "path",
-                              "separated": c11.separated(res, out) if ref is not None else False},
+                              "separated": c11.separated(res, out) if ref is not None else False, **({"sibling": True} if sib else {})},
                              {**inp, "output": out},
                              f"{r.op!r} on {r.before_text!r} succeeded, but in the output {'.'.join(names)} denotes "
                              f"{val.text.decode()!r}, not the requested value: {out!r}")
